@@ -382,7 +382,7 @@ fn line_shift(max_len: i32, max_pos: i32, max_k: i32, max_n: i32) {
 // C14 — bullets: line + circle => marker line ending at the circle centre
 
 //@ harness: o14_4_merge_circle props=C14 tier=quick obl=O14.4 timeout=1800 mem=8
-//@ desc: axis-parallel or diagonal lattice line (length 1..40 cells) whose one end is within half a cell of a bullet circle's centre m (cell at offset <= 64x64): merge_circle yields a MarkerLine from the far end to exactly the circle centre, marker Circle/OpenCircle/BigOpenCircle by is_filled/radius, dashedness kept; atan stubbed by atan_axis (libm value +-1e-4 for the slopes 0, +-2, +-4, +-inf that lattice lines have; any f32 otherwise)
+//@ desc: axis-parallel or diagonal lattice line (length from one quarter-unit step, i.e. shorter than the merge threshold so that BOTH ends are close, up to 40 cells) whose nearer end is within half a cell of a bullet circle's centre m (cell at offset <= 64x64): merge_circle yields a MarkerLine from the far end to exactly the circle centre, marker Circle/OpenCircle/BigOpenCircle by is_filled/radius, dashedness kept; atan stubbed by atan_axis (libm value +-1e-4 for the slopes 0, +-2, +-4, +-inf that lattice lines have; any f32 otherwise)
 //@ encodes: Line::merge_circle, Line::heading, Direction::threshold_length, fragment::marker_line
 #[kani::proof]
 #[kani::stub(f32::atan, crate::kstub::atan_axis)]
@@ -415,13 +415,16 @@ fn o14_4_merge_circle() {
     };
     let near_x = mx + sgn * half * sx;
     let near_y = my + sgn * half * sy;
-    let len = any_in(1, 40) * (if dir == 1 { 8 } else { 4 });
+    // length from one lattice step (the sub-cell stub a bullet draws inside its
+    // own cell, before it is merged with the neighbour's line) up to 40 cells
+    let len = any_in(1, 40 * (if dir == 1 { 8 } else { 4 }));
     let far_x = near_x + sgn * len * sx;
     let far_y = near_y + sgn * len * sy;
     let broken: bool = kani::any();
     let line = lattice_line(near_x, near_y, far_x, far_y, broken);
     let m = line.merge_circle(&circle);
     kani::cover!(m.is_some(), "the bullet merges");
+    kani::cover!(m.is_some() && len == 1 && dir == 1 && !toward, "a one-step stub below the bullet merges");
     match m {
         Some(Fragment::MarkerLine(ml)) => {
             assert!(ml.line.end == circle.center, "O14.4 marked end is the centre of the bullet's cell");
